@@ -6,6 +6,13 @@
 //!   grp      : rows `k:v.v.v` (empty group = `k:`)
 //! Real side: the real assertion under catch_unwind. Oracle: reference multiset / sequence
 //! equality computed by sorting and counting, independent of model and implementation.
+//!   kv  : passes <=> the two row collections are equal as multisets, for EVERY input (repeated keys
+//!         included; `kv-rejects-equal-multisets-with-repeated-key` was a known finding until the
+//!         `fix:` commit that compares runs of equal keys as multisets, it must not occur any more).
+//!   grp : the property's right-hand side (same multiset of keys, and for every key every group of
+//!         one side is multiset-equal to every group of the other side) implies PASS for every input;
+//!         PASS implies it when the keys of at least one side are pairwise distinct (grouped data);
+//!         for every input PASS implies equal key multisets and equal flattened (key, value) multisets.
 
 use crate::ctx::{Ctx, guarded};
 use ironbeam::testing::{
@@ -65,6 +72,11 @@ fn one_kv(cx: &mut Ctx, a: &[(i64, i64)], b: &[(i64, i64)]) {
     let nt = a.len() >= 2 && b.len() >= 2;
     let i = cx.case(format!("ASSERT kv {} | {}", enc_kv(a), enc_kv(b)), s.into(), nt);
     cx.count(if pass { "kv:pass" } else { "kv:panic" });
+    if pass {
+        // the path repaired by the fix: rows of a repeated key in a different relative order
+        let by_key = |x: &[(i64, i64)]| { let mut v = x.to_vec(); v.sort_by_key(|r| r.0); v };
+        if by_key(a) != by_key(b) { cx.count("kv:pass(equal-key rows in different relative order)"); }
+    }
     if pass != want {
         let sig = if pass {
             "kv-accepts-unequal"
@@ -82,20 +94,41 @@ fn one_grp(cx: &mut Ctx, a: &[(i64, Vec<i64>)], b: &[(i64, Vec<i64>)]) {
     let nt = !a.is_empty() && !b.is_empty();
     let i = cx.case(format!("ASSERT grp {} | {}", enc_grp(a), enc_grp(b)), s.into(), nt);
     cx.count(if pass { "grp:pass" } else { "grp:panic" });
-    // the property speaks about grouped data: keys unique on both sides
-    if keys_nodup(a) && keys_nodup(b) {
+    let keys = |x: &[(i64, Vec<i64>)]| sorted(&x.iter().map(|r| r.0).collect::<Vec<_>>());
+    let flat = |x: &[(i64, Vec<i64>)]| {
+        sorted(&x.iter().flat_map(|(k, vs)| vs.iter().map(move |v| (*k, *v))).collect::<Vec<_>>())
+    };
+    // the property's right-hand side, literally: same multiset of keys and, for every key, every
+    // group of that key on one side is multiset-equal to every group of that key on the other side
+    let rhs = keys(a) == keys(b)
+        && a.iter().all(|(k, vs)| b.iter().filter(|(k2, _)| k2 == k).all(|(_, ws)| sorted(vs) == sorted(ws)));
+    let grouped = keys_nodup(a) || keys_nodup(b);
+    if grouped && keys_nodup(a) && keys_nodup(b) {
+        // cross-check of the oracle itself on grouped data: rhs == equality of the normal forms
         let norm = |x: &[(i64, Vec<i64>)]| {
             let mut v: Vec<(i64, Vec<i64>)> = x.iter().map(|(k, vs)| (*k, sorted(vs))).collect();
             v.sort();
             v
         };
-        let want = norm(a) == norm(b);
-        if pass != want {
-            let sig = if pass { "grp-accepts-different-multiplicity" } else { "grp-rejects-equal" };
-            cx.oracle_fail(i, sig, format!("passes={pass}, same keys and per-key multisets={want}"));
+        if rhs != (norm(a) == norm(b)) {
+            cx.oracle_fail(i, "grp-oracle-inconsistent", "rhs and normal-form equality differ".into());
+        }
+    }
+    // completeness holds for every input (theorem assertGrouped_complete)
+    if rhs && !pass {
+        cx.oracle_fail(i, "grp-rejects-equal", format!("passes={pass}, same keys and per-key multisets={rhs}"));
+    }
+    // soundness of the property's statement: grouped data (keys unique on at least one side)
+    if grouped {
+        if pass && !rhs {
+            cx.oracle_fail(i, "grp-accepts-different-multiplicity", format!("passes={pass}, same keys and per-key multisets={rhs}"));
         }
     } else {
-        cx.count("grp:dup-keys(correspondence only)");
+        cx.count("grp:repeated-key-on-both-sides");
+    }
+    // soundness for every input, repeated keys included (theorems assertGrouped_sound_keys / _flatten)
+    if pass && (keys(a) != keys(b) || flat(a) != flat(b)) {
+        cx.oracle_fail(i, "grp-accepts-different-rows", format!("passes although keys-equal={} flattened-rows-equal={}", keys(a) == keys(b), flat(a) == flat(b)));
     }
 }
 
@@ -122,7 +155,13 @@ pub fn run(cx: &mut Ctx) {
     one_unord(cx, &[1, 1, 2], &[1, 2, 2]);
     one_grp(cx, &[(0, vec![1, 1])], &[(0, vec![1])]);
     one_grp(cx, &[(0, vec![1, 1, 2])], &[(0, vec![1, 2, 2])]);
-    one_kv(cx, &[(1, 0), (1, 1)], &[(1, 1), (1, 0)]);
+    one_kv(cx, &[(1, 0), (1, 1)], &[(1, 1), (1, 0)]); // rejected before the kv fix
+    one_kv(cx, &[(1, 0), (1, 0), (1, 1)], &[(1, 0), (1, 1), (1, 1)]); // greedy match must consume partners
+    one_kv(cx, &[(0, 0), (1, 1)], &[(0, 0), (0, 1)]); // partner must have the same key
+    one_kv(cx, &[(2, 5), (1, 7), (1, 8)], &[(1, 8), (1, 7), (2, 5)]);
+    one_grp(cx, &[(0, vec![1, 2])], &[(0, vec![1, 2, 2])]); // actual group is a proper sub-multiset, same set
+    one_grp(cx, &[(0, vec![1]), (0, vec![2])], &[(0, vec![2]), (0, vec![1])]); // repeated key: rejected (not grouped data)
+    one_grp(cx, &[(0, vec![1]), (0, vec![2])], &[(0, vec![1]), (0, vec![2])]);
 
     // exhaustive small scope
     let n = cx.budget(4, 5);
@@ -171,10 +210,24 @@ pub fn run(cx: &mut Ctx) {
         let ka: Vec<(i64, i64)> = a.iter().map(|x| (x % 3, x / 3)).collect();
         let kb: Vec<(i64, i64)> = b.iter().map(|x| (x % 3, x / 3)).collect();
         one_kv(cx, &ka, &kb);
-        let ga = group(&a);
+        let mut ga = group(&a);
         let mut gb = group(&b);
         if cx.rng.chance(1, 2) { gb.reverse(); }
         one_grp(cx, &ga, &gb);
+        // not grouped data: split one group into two rows with the same key, on one or both sides
+        if cx.rng.chance(1, 4) {
+            split_group(cx, &mut gb);
+            if cx.rng.chance(1, 2) { split_group(cx, &mut ga); }
+            one_grp(cx, &ga, &gb);
+        }
+        // a second key/value stream with more keys and values: rows k*4+v, 4 keys x 4 values
+        let len2 = cx.rng.below(14);
+        let a2: Vec<i64> = (0..len2).map(|_| cx.rng.range(0, 16)).collect();
+        let mut b2 = a2.clone();
+        perturb(cx, &mut b2, 16);
+        let ka2: Vec<(i64, i64)> = a2.iter().map(|x| (x % 4, x / 4)).collect();
+        let kb2: Vec<(i64, i64)> = b2.iter().map(|x| (x % 4, x / 4)).collect();
+        one_kv(cx, &ka2, &kb2);
     }
 }
 
@@ -182,6 +235,17 @@ fn group(a: &[i64]) -> Vec<(i64, Vec<i64>)> {
     let mut m: std::collections::BTreeMap<i64, Vec<i64>> = Default::default();
     for x in a { m.entry(x % 3).or_default().push(x / 3); }
     m.into_iter().collect()
+}
+
+fn split_group(cx: &mut Ctx, g: &mut Vec<(i64, Vec<i64>)>) {
+    if g.is_empty() { return; }
+    let i = cx.rng.below(g.len());
+    let at = cx.rng.below(g[i].1.len() + 1);
+    let tail = g[i].1.split_off(at);
+    let k = g[i].0;
+    let pos = cx.rng.below(g.len() + 1);
+    g.insert(pos, (k, tail));
+    cx.count("grp:split-group(repeated key)");
 }
 
 fn perturb(cx: &mut Ctx, b: &mut Vec<i64>, dom: i64) {
